@@ -33,6 +33,12 @@ pub fn units(tier: &str, _seed: u64) -> Vec<String> {
     for s in &core[1..3] {
         v.push(unit(&[("shape", s), ("n", "2"), ("lm", "0"), ("fs", "PEN")]));
     }
+    // very small energies (hourly series at dawn: fractions of a Wh): nothing in the method depends on an
+    // absolute magnitude
+    for s in [core[1], core[2], core[8]] {
+        v.push(unit(&[("shape", s), ("n", "1"), ("lm", "0"), ("fs", "PEN"), ("dom", "0.00001:0.01")]));
+    }
+    v.push(unit(&[("shape", core[1]), ("n", "1"), ("lm", "1"), ("fs", "PEN"), ("dom", "0.00001:0.01")]));
     if tier == "thorough" {
         for s in core {
             for lm in ["0", "1"] {
